@@ -23,45 +23,84 @@ class Ctx:
     def _pure_inline(self, call, frame):
         """`self.m(args)` where m is a straight-line, side-effect-free method (local assignments + one
         return): the returned expression with parameters and locals substituted"""
-        from .sym import substitute
         cls = getattr(frame, 'cls', None)
         if cls is None:
             return None
-        if not call.func.attr.startswith('_') or call.func.attr.startswith('__'):
-            return None         # only private helpers: public API calls keep their name in the summaries
-        m = self.idx.find_method(cls, call.func.attr)
-        if m is None or m.is_async:
+        return self.pure_inline_call(call, cls.mod, cls)
+
+    def pure_inline_call(self, call, mod, cls, depth=0):
+        """a call of a *private*, straight-line, side-effect-free helper -- `self._m(args)` (method or staticmethod),
+        `Cls._m(args)`, or a module-level `_f(args)` -- replaced by its returned expression with parameters and
+        locals substituted; None when the callee is anything else"""
+        from .sym import substitute
+        if not isinstance(call, ast.Call) or depth > 3:
             return None
+        f = call.func
+        m = None
+        if isinstance(f, ast.Attribute) and isinstance(f.value, ast.Name) and cls is not None and f.value.id in ('self', 'cls', cls.name):
+            m = self.idx.find_method(cls, f.attr)
+            name = f.attr
+        elif isinstance(f, ast.Name) and mod is not None:
+            r = self.idx.lookup(mod, f.id)
+            if r and r[0] == 'func':
+                m = r[1]
+            name = f.id
+        if m is None or m.is_async or not name.startswith('_') or name.startswith('__'):
+            return None         # only private helpers: public API calls keep their name in the summaries
         body = [st for st in m.node.body if not (isinstance(st, ast.Expr) and isinstance(st.value, ast.Constant))]
         if not body or not isinstance(body[-1], ast.Return) or body[-1].value is None:
             return None
-        params = m.params[1:]
-        if len(call.args) != len(params):
+        params = list(m.params)
+        if m.cls is not None and not getattr(m, 'is_staticmethod', False):
+            params = params[1:]
+        if len(call.args) > len(params) or any(k.arg is None or k.arg not in params for k in call.keywords):
             return None
         env = dict(zip(params, call.args))
+        for k in call.keywords:
+            env[k.arg] = k.value
+        a = m.node.args
+        pos = a.posonlyargs + a.args
+        for arg, d in zip(pos[len(pos) - len(a.defaults):], a.defaults):
+            env.setdefault(arg.arg, d)
+        if any(p_ not in env for p_ in params):
+            return None
         for st in body[:-1]:
             if isinstance(st, ast.Assign) and len(st.targets) == 1 and isinstance(st.targets[0], ast.Name):
                 env[st.targets[0].id] = substitute(st.value, env)
             else:
                 return None
         for n in ast.walk(body[-1].value):
-            if isinstance(n, ast.Call) and not (isinstance(n.func, ast.Name) and n.func.id in ('len', 'int', 'byte2int', 'min', 'max')):
-                return None
+            if isinstance(n, ast.Call) and not (isinstance(n.func, ast.Name) and n.func.id in ('len', 'int', 'byte2int', 'min', 'max', 'divmod')):
+                inner = self.pure_inline_call(n, m.mod, m.cls, depth + 1)
+                if inner is None:
+                    return None
         return substitute(body[-1].value, env)
 
     def nz(self, mod=None, cls=None):
-        return Normaliser(self.ce, mod, cls)
+        n = Normaliser(self.ce, mod, cls)
+        n.inliner = self.pure_inline_call
+        return n
 
     def enum(self, func, cls=None, resolver=None, may_raise=None, max_depth=3, consts=None, fnbinds=None,
              max_paths=200000):
         pe = PathEnum(self.idx, resolver or SelfResolver(self.idx), may_raise, max_depth=max_depth,
                       hier=self.hier, max_paths=max_paths)
+        pe.consteval = self._consteval_hook
         return pe.run(func, cls if cls is not None else func.cls, consts=consts, fnbinds=fnbinds)
+
+    def _consteval_hook(self, node, frame):
+        from .paths import _UNKNOWN
+        f = getattr(frame, 'func', None)
+        if f is None or not hasattr(f, 'mod'):
+            return _UNKNOWN
+        v = self.ce.try_ev(node, f.mod, getattr(frame, 'cls', None), default=_UNKNOWN)
+        return v if isinstance(v, int) and not isinstance(v, bool) else _UNKNOWN
 
     def enum_region(self, func, cls, stmts=None, stop=(), resolver=None, may_raise=None, max_depth=0, consts=None):
         """enumerate a region of func: `stmts` (a statement list inside func; default the whole body),
         stopping at the statements in `stop`"""
         pe = PathEnum(self.idx, resolver or SelfResolver(self.idx), may_raise, max_depth=max_depth, hier=self.hier)
+        pe.consteval = self._consteval_hook
         pe.stop_nodes = set(stop)
         return pe.run_block(func, cls if cls is not None else func.cls, stmts if stmts is not None else func.node.body, consts=consts)
 
